@@ -62,6 +62,16 @@ chk("C31", "MIR: reset-on-dequeue must-pass, interrupt addressing provenance (lo
     "Trusted: rustc MIR. Schedules are out of reach of static analysis; these are necessary, not sufficient, conditions.",
     "DESIGN.md section 4 C31")
 
+chk("C13", "syntax-table coverage: diagonal arms of `impl PartialEq for Value_` vs the enum's variants; same-field conjunction shape per arm; != is derived; operator dispatch agreement",
+    "Coverage clauses the compiler cannot enforce because of the `_ => false` catch-all: every variant has its diagonal arm, each literal-syntax arm compares every value-carrying field of the two sides pairwise, and != is the negation on the same operands. A relation of that shape is an equivalence by induction on values; values are never computed.",
+    "Trusted: syn parse of values.rs/eval.rs; std/rpds element-wise equality. NaN reflexivity is excluded by the property (finite floats).",
+    "DESIGN.md section 4 C13")
+
+chk("C10", "field-coverage: StackFrame fields (from the type) classified by a reviewed table; each state field reset by pop_to_toplevel on frame 0 on every path (MIR); Abort arm shapes",
+    "Reset-coverage clause: every per-evaluation field of the surviving frame is reset by :abort's only mechanism on every path, frames above are dropped, the Abort arms never evaluate afterwards. A new collection field without classification fails closed.",
+    "Trusted: rustc MIR/ADT layout facts; the field classification table (reviewed, one reason per field). Whether top-level locals of the failed input should survive is not decided.",
+    "DESIGN.md section 4 C10")
+
 ENGINES = [
  {"name": "gfacts", "path": "tools/gfacts", "kind_free_text": "rustc_private driver (nightly) dumping the type-checked MIR (CFG, resolved callees, asserts, places with field names) of every function of the garden crate as JSON; run as RUSTC_WORKSPACE_WRAPPER under cargo +nightly check on /repo's current tree"},
  {"name": "gshape", "path": "tools/gshape", "kind_free_text": "syn-2 syntax tree dumper (match arms, patterns, literals, struct initialisers) for table/shape rules"},
